@@ -2,7 +2,7 @@
 // vs coq/Rpc/Batch.v.  Raw JSON in, raw JSON out, through rpc.Server.ServeCodec on an
 // in-memory connection (mode 0) or rpc.Server.ServeHTTP with a request timeout (mode 1).
 //
-// case    (mode item_limit resp_limit inv_size (message ...))     | probe (9 n timeout_us)
+// case    (mode item_limit resp_limit inv_size (message ...))     | probe (9 n timeout_us) | (8 n deadline_us)
 // message (0 entry fire) | (1 (entry ...) fire)
 // entry   (vsn idkind idtok method params result error out size sub late behav)
 // See coq/Run/C49.v for the meaning of the fields shared with the model; behav selects the
@@ -462,6 +462,13 @@ func waitWG(wg *sync.WaitGroup, d time.Duration) {
 }
 
 func runHTTP(body string, il, rl int, timeout time.Duration) ([]event, bool) {
+	return runHTTPCtx(body, il, rl, timeout, false)
+}
+
+// ownDeadline: instead of the server's WriteTimeout the request context itself carries a
+// deadline (a caller-supplied context); ContextRequestTimeout then arms the timer for the
+// same instant at which the context cancels itself
+func runHTTPCtx(body string, il, rl int, timeout time.Duration, ownDeadline bool) ([]event, bool) {
 	cs := &caseState{written: make(chan struct{})}
 	rec := &recorder{replyCh: make(chan struct{}, 64), cs: cs}
 	srv := newServer(cs, il, rl)
@@ -470,6 +477,11 @@ func runHTTP(body string, il, rl int, timeout time.Duration) ([]event, bool) {
 	// the production HTTP path: ContextRequestTimeout derives the timeout from the
 	// http.Server's WriteTimeout (minus 100 ms) found in the request context
 	ctx := context.WithValue(req.Context(), http.ServerContextKey, &http.Server{WriteTimeout: 100*time.Millisecond + timeout})
+	if ownDeadline {
+		var cancel context.CancelFunc
+		ctx, cancel = context.WithTimeout(req.Context(), timeout)
+		defer cancel()
+	}
 	srv.ServeHTTP(&httpRecorder{http.Header{}, rec}, req.WithContext(ctx))
 	srv.Stop()
 	return rec.events, cs.blockEntered.Load()
@@ -642,7 +654,7 @@ func notifOrder(all []event) []string {
 	return fails
 }
 
-func runProbe(n, us int) Result {
+func runProbe(n, us int, ownDeadline bool) Result {
 	var sb strings.Builder
 	sb.WriteByte('[')
 	for i := 1; i <= n; i++ {
@@ -652,7 +664,7 @@ func runProbe(n, us int) Result {
 		fmt.Fprintf(&sb, `{"jsonrpc":"2.0","id":%d,"method":"t_quick"}`, i)
 	}
 	sb.WriteByte(']')
-	evs, _ := runHTTP(sb.String(), 0, 0, time.Duration(us)*time.Microsecond)
+	evs, _ := runHTTPCtx(sb.String(), 0, 0, time.Duration(us)*time.Microsecond, ownDeadline)
 	res := Result{Tags: []string{"probe"}, NonTrivial: true}
 	count, ok := 0, false
 	timeouts := 0
@@ -669,7 +681,9 @@ func runProbe(n, us int) Result {
 		}
 	}
 	res.Obs = L(I(int64(count)), Bool(ok))
-	if count != n || !ok {
+	if (count != n || !ok) && ownDeadline {
+		res.Oracle = fmt.Sprintf("C49-ctx-deadline: batch of %d calls, request context with its own %dus deadline: %d wire events, reply answers %d calls", n, us, len(evs), count)
+	} else if count != n || !ok {
 		res.Oracle = fmt.Sprintf("C49-timeout-race: batch of %d calls under a %dus timeout: %d wire events, reply answers %d calls", n, us, len(evs), count)
 	}
 	if timeouts > 0 && timeouts < n {
@@ -681,7 +695,10 @@ func runProbe(n, us int) Result {
 func run(c Sx) Result {
 	top := AsList(c)
 	if len(top) == 3 && AsInt(top[0]) == 9 {
-		return runProbe(AsInt(top[1]), AsInt(top[2]))
+		return runProbe(AsInt(top[1]), AsInt(top[2]), false)
+	}
+	if len(top) == 3 && AsInt(top[0]) == 8 {
+		return runProbe(AsInt(top[1]), AsInt(top[2]), true)
 	}
 	if len(top) != 5 {
 		panic("hxlib: case needs 5 fields")
@@ -899,7 +916,7 @@ func validate(mode int, msgs []message) {
 			}
 			if e.method == 1 && e.behav == 5 {
 				blocks++
-				if mode != 1 || m.fire != keptBefore || !(e.isCall() || (m.batch && e.isNotification())) {
+				if mode != 1 || m.fire != keptBefore || !(e.isCall() || e.isNotification()) {
 					bad("blocking entry must be the executed entry at which the timer fires")
 				}
 			}
@@ -999,8 +1016,8 @@ func genMessage(r *Rng, nextTok *int, allowSub, adversarial bool) (message, bool
 		e := genEntry(r, nextTok, used, allowSub, adversarial)
 		if e.behav == 6 {
 			hasSub = true
-		} else {
-			used = append(used, e.idtok)
+		} else if e.idkind != 0 {
+			used = append(used, e.idtok) // ids that may be duplicated by later entries
 		}
 		m.entries = append(m.entries, e)
 	}
@@ -1076,6 +1093,10 @@ func gen(r *Rng, tier string, emit func(Sx)) {
 	for i := 0; i < 60*scale; i++ {
 		emit(L(I(9), I(int64(r.Range(800, 2000))), I(int64(r.Range(100, 1000)))))
 	}
+	// the same batches under a request context that carries its own deadline
+	for i := 0; i < 40*scale; i++ {
+		emit(L(I(8), I(int64(r.Range(800, 2000))), I(int64(r.Range(100, 1000)))))
+	}
 	// connections served by ServeCodec: sequences of singles and batches, no timeouts
 	for i := 0; i < 1200*scale; i++ {
 		adversarial := i%3 == 2
@@ -1106,10 +1127,10 @@ func gen(r *Rng, tier string, emit func(Sx)) {
 			il = len(m.entries) + 1 + r.Intn(2)
 		}
 		if !m.batch {
-			// single: a blocking call (a blocking single notification under a timeout is
-			// answered by the timer callback: reported separately, see C49_single_notification_timeout_refuted)
+			// single: a blocking call, or a blocking notification (which must stay unanswered
+			// even though its request times out)
 			tok := nextTok
-			m.entries = []entry{mkExec(r, 5, tok, false)}
+			m.entries = []entry{mkExec(r, 5, tok, r.Chance(1, 3))}
 			m.fire = 0
 		} else {
 			pos := r.Intn(len(m.entries) + 1)
@@ -1132,7 +1153,7 @@ func gen(r *Rng, tier string, emit func(Sx)) {
 func main() {
 	Main(Family{
 		ID: "C49",
-		Rule: "probes: 60 batches of 800-2000 trivial calls under a 0.1-1 ms HTTP timeout (all ids must be answered exactly once); " +
+		Rule: "probes: 60 batches of 800-2000 trivial calls under a 0.1-1 ms HTTP timeout (all ids must be answered exactly once), 40 more where the request context carries its own 0.1-1 ms deadline; " +
 			"connections (ServeCodec, in-memory) carrying 1-3 messages, each a single entry or a batch of 0-14 entries drawn from " +
 			"calls (quick/failing/unknown method/large result/bad params/subscribe with buffered+late notifications), notifications, " +
 			"responses, *_subscription notifications, invalid requests (bad version, object/array id, no method, non-object), duplicate and null ids, " +
